@@ -5,3 +5,5 @@ import PV.Generated.Score
 import PV.Proofs.ArithLemmas
 import PV.Proofs.ScoreLemmas
 import PV.Properties.C15
+import PV.Model.SCC
+import PV.Properties.C11
